@@ -117,6 +117,12 @@ class Model:
             srt = R_ if ('float' in ty or 'double' in ty) else (B_ if ty.replace('const ', '') == 'bool' else I_)
             return ex.fresh(f'static_{name}', srt)
         is_vec = ty.replace('const ', '').strip().startswith('std::vector<combinator_result') and '*' not in ty and '&' not in ty
+        bare = ty.replace('const ', '').strip()
+        if (bare.startswith('std::unordered_set<') or bare.startswith('std::set<')) and '*' not in ty and '&' not in ty and 'cell_item' not in ty:
+            # a local set of scalars (a filter kept across the iterations of an enclosing loop): an arbitrary iteration finds it with unknown contents
+            if init is not None:
+                ex.ev(init, env)
+            return Abstract('localset', name=name)
         if init is None or is_vec:
             if 'cell_item *' in ty:
                 return Ptr(None)
@@ -312,6 +318,22 @@ class Model:
                 r = obj.f['start_of_span'] + obj.f['span_length']
                 ex.oblige('nowrap', z3.And(r >= 0, r < U32), node, 'end_of_span does not wrap')
                 return r
+        if isinstance(obj, Abstract) and obj.kind == 'localset':
+            # contents unknown (see declare): queries return unconstrained answers, updates change nothing the model tracks
+            if name == 'count':
+                r = ex.fresh(f'{obj.name}_count', I_)
+                ex.assume(z3.And(r >= 0, r <= 1))
+                return r
+            if name in ('size',):
+                r = ex.fresh(f'{obj.name}_size', I_)
+                ex.assume(r >= 0)
+                return r
+            if name in ('empty', 'contains'):
+                return ex.fresh(f'{obj.name}_{name}', B_)
+            if name in ('insert', 'emplace'):
+                return Rec('pair', dict(first=Abstract('set_iter'), second=ex.fresh(f'{obj.name}_inserted', B_)))
+            if name in ('erase', 'clear', 'reserve'):
+                return Abstract('ignored_result')
         if isinstance(obj, Abstract):
             k = obj.kind
             if k == 'agenda':
@@ -381,6 +403,7 @@ class Model:
             ex.assume(z3.And(k >= 0, k < g.NU(rng.x), k < U32))
             elem = Rec('combinator_result', dict(cat_id=g.RU_cat(rng.x, k), rule_id=k, head_is_left=g.RU_head(rng.x, k)))
             elem.ghost = ('unary', rng.x, k)
+            desc = dict(kind='unary', x=rng.x, k=k)
             ex.assume(z3.And(elem.f['cat_id'] >= 0, elem.f['cat_id'] < U32))
         elif isinstance(rng, Abstract) and rng.kind == 'binary_results':
             k = ex.fresh('k_binary', I_)
@@ -388,13 +411,25 @@ class Model:
             elem = Rec('combinator_result', dict(cat_id=g.RB_cat(rng.x, rng.y, k), rule_id=k, head_is_left=g.RB_head(rng.x, rng.y, k)))
             elem.ghost = ('binary', rng.x, rng.y, k)
             ex.assume(z3.And(elem.f['cat_id'] >= 0, elem.f['cat_id'] < U32))
+            desc = dict(kind='binary', x=rng.x, y=rng.y, k=k)
         elif isinstance(rng, Abstract) and rng.kind == 'cells':
             elem = Ptr(None)
             elem = Abstract('cellptr', cells=rng)
+            desc = dict(kind='cells', which=rng.which, index=rng.index)
         elif isinstance(rng, Abstract) and rng.kind == 'cellptr':
             elem = self.mode['chart_item'](ex, rng.cells)
+            desc = dict(kind='items', cells=rng.cells, other=elem)
         else:
             return self.mode['range'](ex, st, env, rng)
+        # what the expansion-completeness obligations read: which containers were walked (one arbitrary iteration each), what was pushed meanwhile
+        if not hasattr(self, 'loop_stack'):
+            self.loop_stack, self.range_events = [], []
+        self.loop_stack.append(desc)
+        n_push0 = len(self.pushes)
+        ended = 'normal'
+        # what is assumed about the arbitrary element (and decided inside its iteration) holds inside the iteration only: the loop may as well have
+        # no element at all, and the body assigns nothing outside itself (checked below), so after the loop the path condition is the one before it
+        pc0, lits0 = list(ex.pc), dict(ex.lits)
         env2 = dict(env)
         env2[name] = elem
         saved_rule = getattr(self, 'current_rule', None)
@@ -403,8 +438,19 @@ class Model:
         before = {k: v for k, v in env.items()}
         try:
             ex.run(body, env2)
-        except (_Break, _Continue):
-            pass
+        except _Break:
+            ended = 'break'
+        except _Continue:
+            ended = 'continue'
+        except Infeasible:
+            ended = 'infeasible'          # no element can satisfy what the body assumes: the loop contributes nothing on this path
+        finally:
+            stack = list(self.loop_stack)
+            self.loop_stack.pop()
+            pc_in = list(ex.pc)
+            ex.pc[:] = pc0
+            ex.lits = lits0
+        self.range_events.append(dict(desc=desc, stack=stack, pushes=list(self.pushes[n_push0:]), pc=pc_in, ended=ended, line=line_of(st)))
         self.current_rule = saved_rule
         for k_, v in before.items():
             if env2.get(k_) is not v:
@@ -485,6 +531,7 @@ def run_main_loop(ast):
 
     def run():
         m.pushes, m.goal_updates = [], []
+        m.loop_stack, m.range_events, m.chart_key = [], [], None
         env = base_env(g)
         top = new_item(ex, 'top', m.fields)
         state = dict(top=top, chart_item=None, others=[])
@@ -560,14 +607,73 @@ def run_main_loop(ast):
             pass
         ex.oblige('frame-config', config_frame(g, cfg0, env['config'].target), loop,
                   'an iteration of the search loop leaves every field of *config as it found it (parsing.pyx hands one config to all sentences of a run)')
-        return 'iteration', dict(pushes=list(m.pushes), goal_updates=list(m.goal_updates), top=top, facts=facts_for)
+        return 'iteration', dict(pushes=list(m.pushes), goal_updates=list(m.goal_updates), top=top, facts=facts_for, events=list(m.range_events),
+                                 item=state['chart_item'], others=list(state['others']), filed=m.chart_key is not None)
     outs = explore(ex, run)
     return g, m, outs
+
+
+def expansion_obligations(g, v, pc_end, pi, line):
+    """completeness of one iteration of the search loop (C01: the best derivation is found only if every licensed combination is put on the agenda;
+    C10: "each pair of adjacent items is combined exactly once, when the later one is popped").  Every range-for of the iteration is executed for one
+    arbitrary element, so the obligations are stated per path:
+      goal-complete    a popped final item is filed in the goal cell
+      chart-complete   a popped non-final item is offered to the chart
+      expand-root      an inserted full-span item with an allowed root category yields a final item
+      expand-sites     an inserted item walks unary_results(its category) when a unary step is allowed here, cells_starting_at(its end) with
+                       binary_results(item, other) and cells_ending_at(its start) with binary_results(other, item) - each over ALL elements
+                       (no break), each nested in the loops over the cells and their items
+      expand-once      the iteration for an arbitrary rule result pushes exactly one item (no result is skipped, none is pushed twice)"""
+    recs = []
+    top, item = v['top'], v['item']
+    facts = v['facts']([x for x in [top, item] + v['others'] if x is not None])
+    add = lambda k, goal, what, props, pc=pc_end, line=line: recs.append(dict(kind=k, line=line, goal=goal, pc=pc, what=what, props=props, path=pi, facts=facts, site='search-iteration'))
+    add('goal-complete', z3.Implies(top.f['fin'], z3.BoolVal(len(v['goal_updates']) == 1)), 'a popped final item is filed in the goal cell exactly once', ('C01', 'C10'))
+    add('chart-complete', z3.Implies(z3.Not(top.f['fin']), z3.BoolVal(bool(v['filed']))), 'a popped non-final item is offered to the chart', ('C01', 'C10'))
+    for e in v['events']:
+        if e['ended'] == 'break':
+            add('expand-sites', z3.BoolVal(False), f'a break leaves the rest of the range-for at parsing.h:{e["line"]} unvisited', ('C01', 'C10'), pc=e['pc'], line=e['line'])
+        if e['desc']['kind'] in ('unary', 'binary'):
+            mine = [p for p in e['pushes'] if p.get('rule') is not None and p['rule'][0] == e['desc']['kind'] and p['rule'][-1] is e['desc']['k']]
+            add('expand-once', z3.BoolVal(len(mine) == 1 and len(e['pushes']) == 1),
+                f'the iteration for an arbitrary {e["desc"]["kind"]} rule result pushes exactly one item built from that result ({len(e["pushes"])} pushes on this path)', ('C01', 'C10'), pc=e['pc'], line=e['line'])
+    if item is None:
+        return recs
+    fin_pushes = [p for p in v['pushes'] if z3.is_true(z3.simplify(p['item'].f['fin']))]
+    if not fin_pushes:
+        add('expand-root', z3.Not(z3.And(item.f['span_length'] == g.length, g.is_root(item.f['cat']))),
+            'a full-span item with an allowed root category yields a final item', ('C01', 'C10'))
+    ev = v['events']
+    un = [e for e in ev if e['desc']['kind'] == 'unary']
+    if not un:
+        add('expand-sites', z3.Not(z3.Or(g.length == 1, item.f['span_length'] != g.length)), 'the unary results of the inserted item are walked wherever a unary step is allowed', ('C01', 'C10'))
+    else:
+        add('expand-sites', z3.And([e['desc']['x'] == item.f['cat'] for e in un] + [z3.BoolVal(len(e['stack']) == 1) for e in un]),
+            'the unary results walked are those of the category of the inserted item', ('C01', 'C10'))
+    end = item.f['start_of_span'] + item.f['span_length']
+    for which, idx, left_is_item in (('cells_starting_at', end, True), ('cells_ending_at', item.f['start_of_span'], False)):
+        hits = []
+        for e in ev:
+            st = e['stack']
+            if e['desc']['kind'] == 'binary' and len(st) == 3 and st[0]['kind'] == 'cells' and st[0]['which'] == which and st[1]['kind'] == 'items' \
+                    and st[1]['cells'].which == which:
+                hits.append(e)
+        if len(hits) != 1:
+            add('expand-sites', z3.BoolVal(False), f'the items of {which}(...) are combined with the inserted item in one nest of loops (cells, items, rule results): found {len(hits)}', ('C01', 'C10'))
+            continue
+        e = hits[0]
+        st = e['stack']
+        other = st[1]['other']
+        x, y = (item.f['cat'], other.f['cat']) if left_is_item else (other.f['cat'], item.f['cat'])
+        add('expand-sites', z3.And(st[0]['index'] == idx, e['desc']['x'] == x, e['desc']['y'] == y),
+            f'{which}: the cells at the {"end" if left_is_item else "start"} of the inserted item, rule results of ({"item, other" if left_is_item else "other, item"})', ('C01', 'C10'))
+    return recs
 
 
 def spec_obligations_main(g, m, outs):
     """obligations at the push sites of the search loop, tagged by the property they serve"""
     recs = []
+    line_of_loop = 0
     seen_lines = set()
     for pi, o in enumerate(outs):
         for ob in o['obligations']:
@@ -577,6 +683,7 @@ def spec_obligations_main(g, m, outs):
             continue
         v = o['value']
         top = v['top']
+        recs.extend(expansion_obligations(g, v, o['pc'], pi, line_of_loop))
         for gu in v['goal_updates']:
             row, col, it = gu
             recs.append(dict(kind='goal-cell', line=0, goal=z3.And(row == 0, col == 0, it.f['fin']), pc=o['pc'],
